@@ -11,6 +11,7 @@ Feature switches (dict f):
   span_range / span_nested   wrap text[i:j] in a text:span (optionally with a nested span), literal text before and after
   empty_as_p    write an empty cell as <table:table-cell><text:p/></table:table-cell>
   encoding      XML encoding of content.xml (UTF-8, UTF-16, ISO-8859-1)
+  annotations   every non-empty cell that is not part of a run carries a comment (office:annotation with paragraphs of its own)
   filler        extra non-table content (styles, settings) a real office suite would write
 """
 import zipfile
@@ -21,8 +22,11 @@ NAMESPACES = (
     'xmlns:office="urn:oasis:names:tc:opendocument:xmlns:office:1.0" '
     'xmlns:style="urn:oasis:names:tc:opendocument:xmlns:style:1.0" '
     'xmlns:table="urn:oasis:names:tc:opendocument:xmlns:table:1.0" '
-    'xmlns:text="urn:oasis:names:tc:opendocument:xmlns:text:1.0"'
+    'xmlns:text="urn:oasis:names:tc:opendocument:xmlns:text:1.0" '
+    'xmlns:dc="http://purl.org/dc/elements/1.1/"'
 )
+ANNOTATION = ('<office:annotation office:name="__Annotation__%d"><dc:creator>reviewer</dc:creator><dc:date>2024-01-01T00:00:00</dc:date>'
+              "<text:p>asked for by accounting</text:p><text:p>second line</text:p></office:annotation>")
 WHITESPACE = " \t\n"
 
 
@@ -92,6 +96,9 @@ def encode_row(cells, f):
         count = end - index + 1
         attribute = ' table:number-columns-repeated="%s"' % f.get("col_count_text", count) if count > 1 or "col_count_text" in f else ""
         inner = encode_cell_content(cells[index], f)
+        if f.get("annotations") and inner and count == 1:
+            # a cell comment: its paragraphs belong to the annotation, not to the cell's content
+            inner = ANNOTATION % index + inner
         cell_attributes = ' office:value-type="string"' if inner and f.get("filler") else ""
         if inner:
             out.append("<table:table-cell%s%s>%s</table:table-cell>" % (attribute, cell_attributes, inner))
